@@ -263,9 +263,17 @@ func (m *LinearMinting) CalculateInflation(totalSupply math.Int, minterStart tim
 		return sdk.ZeroDec()
 	}
 
-	periodDuration := endTime.Sub(minterStart)
-	mintedYearly := sdk.NewDecFromInt(m.Amount).MulInt64(int64(year)).QuoInt64(int64(periodDuration))
+	// time.Time.Sub saturates at about 292 years: a longer period would be taken for a
+	// 292 year one and its inflation reported too high
+	periodDuration := elapsedNanoseconds(minterStart, *endTime)
+	mintedYearly := sdk.NewDecFromInt(m.Amount).MulInt64(int64(year)).QuoInt(periodDuration)
 	return mintedYearly.QuoInt(totalSupply)
+}
+
+// elapsedNanoseconds returns end - start in nanoseconds. Unlike time.Time.Sub the result
+// is exact for instants that lie more than math.MaxInt64 nanoseconds (~292 years) apart.
+func elapsedNanoseconds(start time.Time, end time.Time) math.Int {
+	return math.NewInt(end.Unix() - start.Unix()).MulRaw(int64(time.Second)).AddRaw(int64(end.Nanosecond() - start.Nanosecond()))
 }
 
 func (m *ExponentialStepMinting) CalculateInflation(totalSupply math.Int, startTime time.Time, endTime *time.Time, blockTime time.Time) sdk.Dec {
